@@ -136,6 +136,7 @@ def run(ctx):
                               % (ev['n'], ev['r'], ex), dict(kind='history', history=h, rejected_at=i + 1))
                 break
     consumers(ctx, thorough)
+    par_streams(ctx, thorough)
     ctx.cov['rule'] = ('all histories of length %d over {add x2 prios x3 tasks, remove x3, pop, peek smallest/largest, '
                        'empty, clear, iter} plus %d seeded random histories (length 30-200, float prios with ties and '
                        'inf, re-adds) plus %d TLC-simulated behaviours of the L2 model; non-trivial = contains a re-add, '
@@ -144,7 +145,7 @@ def run(ctx):
     ctx.cov['exhaustive'] = True
     ctx.assumptions += ['CPython heapq extracts the least entry (heap layout abstracted)',
                         'task keys: strings in even-numbered histories, equal-but-not-identical objects (fresh instance per call) in odd ones',
-                        'consumers: the NRT ClockScheduler and the OSC score are observed here through tie programs; RT clock queues in C08, Ppar in C14']
+                        'consumers: the NRT ClockScheduler and the OSC score are observed here through tie programs, Ppar through the order in which it emits its children (decimal durations, times as ranks of IEEE sums); RT clock queues in C08, Ppar deltas and bundles in C14']
 
 
 def consumers(ctx, thorough):
@@ -172,6 +173,60 @@ def consumers(ctx, thorough):
                           dict(kind='tie-program', program=t['prog'], rejected_at=at, why=why, events=t['ev'][:at + 1], score=t.get('score')))
 
 
+DURS = [0.1, 0.2, 0.3, 0.4, 0.7, 0.25, 0.5, 0.6, 0.15, 1.1, 1 / 3]
+
+
+def par_cases(rnd, n):
+    cases = []
+    for i in range(n):
+        x = rnd.random()
+        if x < 0.25:        # two or three voices cycling through short decimal patterns: they keep meeting again
+            k = rnd.randint(3, 10)
+            kids = [[rnd.choice(DURS) for _ in range(rnd.randint(1, 3))] * k for _ in range(rnd.randint(2, 3))]
+        elif x < 0.4:       # the same total per cycle, split differently (equal decimal times, unequal float sums)
+            k = rnd.randint(2, 8)
+            kids = [[0.1, 0.7] * k, [0.2, 0.7] * k] + ([[0.3, 0.5] * k] if rnd.random() < 0.5 else [])
+            rnd.shuffle(kids)
+        else:
+            kids = [[rnd.choice(DURS) for _ in range(rnd.randint(1, 14))] for _ in range(rnd.randint(2, 4))]
+        cases.append(dict(id=9_000_000 + i, children=kids))
+    return cases
+
+
+def par_streams(ctx, thorough, only=None):
+    """consumer: parallel pattern streams.  Ppar over children with decimal (non-dyadic) durations; TLC folds the
+    emitted child order through the stable merge of the children's own time lines (TraceParMerge.tla)."""
+    import random
+    rnd = random.Random(ctx.seed + 77)
+    cases = only if only is not None else par_cases(rnd, 3000 if thorough else 400)
+    per = max(1, (len(cases) + 15) // 16)
+    outs = ctx.run_drivers('drivers/c09_par.py', [dict(cases=cases[i:i + per]) for i in range(0, len(cases), per)], mode='nrt')
+    traces = [t for o in outs for t in o['traces']]
+    if len(traces) != len(cases):
+        raise MachineryError('par driver returned %d traces for %d cases' % (len(traces), len(cases)))
+    v = ctx.validate('TraceParMerge', 'TraceParMerge.cfg', traces)
+    ctx.cov['evaluations'] += len(traces)
+    ctx.cov['par_cases'] = len(traces)
+    cmap = {c['id']: c for c in cases}
+    ties = 0
+    for t in traces:
+        alltimes = [r for line in t['ranks'] for r in line[1:-1]]
+        if len(set(alltimes)) < len(alltimes):       # two children meet at exactly the same (float) time after the start
+            ties += 1
+            ctx.nontrivial([cmap[t['id']]['children']])
+        r = v[t['id']]
+        if not t['deltas_nonneg']:
+            r = r or (0, 'negative-delta')
+        if r is not None:
+            at, why = r
+            ctx.violation('consumer:par:%s' % why,
+                          'Ppar does not emit the stable time-ordered merge of its children (%s) at emission %d' % (why, at),
+                          dict(kind='par-case', case=cmap[t['id']], rejected_at=at, why=why, emitted=t['em'], ranks=t['ranks']))
+    ctx.cov['par_cases_with_equal_times'] = ties
+    if only is None and ties < len(traces) // 20:
+        raise MachineryError('vacuity: only %d of %d Ppar cases have two children meeting at an equal time' % (ties, len(traces)))
+
+
 def run_histories(ctx, hs, base=0):
     n = len(hs)
     per = max(1, (n + 15) // 16)
@@ -184,6 +239,9 @@ def run_histories(ctx, hs, base=0):
 
 
 def replay(ctx, rp):
+    if rp['replay'].get('kind') == 'par-case':
+        ctx.cov['evaluations'] = 0
+        return par_streams(ctx, False, only=[rp['replay']['case']])
     if rp['replay'].get('kind') == 'tie-program':
         from props import _time as T
         tr = T.run_mode(ctx, [dict(rp['replay']['program'], id=0)], 'nrt', nproc=1)
@@ -210,7 +268,7 @@ MANIFEST = dict(
     text=('TLC checks exhaustively (3 tasks, 2-3 priorities, bounded stamps) that the stable-priority-queue spec '
           'satisfies the stated laws and that a line-by-line model of the lazy-deletion heap refines it; the real '
           'class is bound to the spec by validating every history of length <=4 (thorough: 5) over the complete method '
-          'alphabet plus long random histories as traces (string keys and equal-but-not-identical keys), by replaying simulated model behaviours, and through its consumers: tie programs on the NRT clock scheduler and equal-time bundles in the OSC score, followed by TLC through the LogicalTime machine.'),
+          'alphabet plus long random histories as traces (string keys and equal-but-not-identical keys), by replaying simulated model behaviours, and through its consumers: tie programs on the NRT clock scheduler and equal-time bundles in the OSC score, followed by TLC through the LogicalTime machine, and Ppar over children with decimal durations, whose emission order TLC folds through the stable merge of the children\'s own time lines (TraceParMerge.tla).'),
     note='Trusted: TLC, CPython heapq, the 60-line driver that records return values. Histories are finite and tasks are strings.',
     technique='TLA+ L1/L2 refinement checked by TLC + batch trace validation of exhaustive/random histories on the real TaskQueue and of its consumers (NRT scheduler, OSC score)',
     design_ref='DESIGN.md section 3 / C09',
